@@ -2444,6 +2444,19 @@ def _(E, c):
     return NotImplemented
 
 
+@model('re:^Registered(Seal|PoSt|Update)Proof::(registered_window_post_proof|registered_winning_post_proof|registered_update_proof|sector_size|window_post_partition_sectors|sector_maximum_lifetime)$')
+def _(E, c):
+    """proof-type tables of fvm_shared: an arbitrary value of the result type per call, or an error for unknown types"""
+    nm = E.ctx.fresh_name('prooftable.' + c.callee.idents[-1])
+    dt = c.dest_ty or ''
+    if type_head(dt) == 'Result':
+        T = type_args(dt)[0]
+        if E.ctx.branch(z3.Bool(nm + '.known')):
+            return ok(E.materialize(T, nm), dt)
+        return err(OpaqueV('String', 'unsupported proof type'), dt)
+    return E.materialize(dt, nm)
+
+
 @model('RegisteredPoStProof::proof_size', 'RegisteredSealProof::proof_size')
 def _(E, c):
     """table lookup by proof type: an arbitrary positive size per type, or an error for unknown types"""
